@@ -445,7 +445,7 @@ func cmdCheck(args []string) int {
 	wall := time.Since(t0).Seconds()
 	if !*noEvidence && *prop != "" && *only == "" && *fnOnly == "" {
 		level := "proof"
-		if len(undecided) > 0 || nDis < nProof-len(knownHit) || len(bounded) > 0 {
+		if len(undecided) > 0 || nDis < nProof || len(bounded) > 0 {
 			level = "other"
 		}
 		var tb []string
